@@ -100,6 +100,7 @@ Definition v_call (c : call blob) : val :=
   | CIsFile p => VL [VT "isfile"; VS (join_path p)]
   | CExists p => VL [VT "exists"; VS (join_path p)]
   | CMakedirs p => VL [VT "makedirs"; VS (join_path p)]
+  | CUnlink p => VL [VT "unlink"; VS (join_path p)]
   | COpen p MR => VL [VT "open"; VS (join_path p); VT "m-rb"]
   | COpen p MW => VL [VT "open"; VS (join_path p); VT "m-wb"]
   | COpen p MX => VL [VT "open"; VS (join_path p); VT "m-xb"]
